@@ -7,11 +7,15 @@ import (
 	"encoding/json"
 	"fmt"
 
+	"os"
+	"path/filepath"
+
 	"golang.org/x/crypto/ssh"
 
 	"github.com/theparanoids/ysshra/common"
 	"github.com/theparanoids/ysshra/csr"
 	"github.com/theparanoids/ysshra/gensign"
+	"github.com/theparanoids/ysshra/gensign/regular"
 	"github.com/theparanoids/ysshra/internal/zzverif/ev"
 	"github.com/theparanoids/ysshra/internal/zzverif/fix"
 	"github.com/theparanoids/ysshra/zzverifrt/vrand"
@@ -303,9 +307,50 @@ func c01Sequence(c *ev.Ctx, k c01Case) {
 	}
 }
 
+// c01Rotation: the registered key is replaced in place between runs of the same process; proof of possession must be
+// demanded for the key registered NOW (a cached key file, key object or verification result would keep the old one).
+func c01Rotation(c *ev.Ctx, k c01Case) {
+	c.Eval()
+	k.LogName, k.Policy = "alice", "NONS"
+	fileName := "alice.pub"
+	if k.KeyDir == "bare" {
+		fileName = "alice"
+	} else {
+		k.KeyDir = "pub"
+	}
+	e := c01Env(k, "honest-with-key") // file = key A, agent holds A
+	defer e.close()
+	step := func(kk c01Case, tag string) {
+		addsBefore, caBefore, signBefore := len(e.ua.Ring.AddLog), len(e.ca.Reqs), len(e.adv.SignReqs)
+		p := c01Params(kk)
+		// a fresh handler per run (as cmd/gensign does) and the long-lived one are both exercised
+		h := e.handler
+		if kk.NilParams {
+			h, _ = regular.NewHandler(e.conf, e.conn)
+			kk.NilParams = false
+			p = c01Params(kk)
+		}
+		err, esc := e.run(p, []gensign.Handler{h})
+		c01Observe(c, kk, e, p, err, esc, addsBefore, caBefore, signBefore, tag)
+	}
+	kA := k
+	kA.Agent = "honest-with-key"
+	step(kA, "rotation/1-before")
+	// the administrator replaces the registered key with key B, in place
+	os.WriteFile(filepath.Join(e.dir, fileName), ssh.MarshalAuthorizedKey(fix.Pub(otherKey())), 0o644)
+	kB := k
+	kB.KeyDir, kB.Agent = "pub-otherkey", "honest-with-key" // registered key is now B; the agent still holds only A
+	step(kB, "rotation/2-old-key-after-rotation")
+	kBfresh := kB
+	kBfresh.NilParams = true // marker: use a freshly constructed handler
+	step(kBfresh, "rotation/3-old-key-fresh-handler")
+	e.ua.Ring.Add(agentAdded(otherKey(), "new key"))
+	step(kB, "rotation/4-new-key")
+}
+
 func checkC01(c *ev.Ctx) {
 	defer cleanupScratch()
-	c.Rule("real gensign.Run + regular.Handler (built by NewHandler from a JSON config) over a scripted forwarded agent and a recording CA: single runs = full product login{alice,bob,ünï} x policy{NONS,NSOK} x hard-key x params{set,nil} x client claim{self,mallory} x key directory{none,.pub,bare,both,unparsable,other user,directory,another user's key} x agent{honest with key, without, signs with another key, signs other data, garbage, empty, failure, close}; handler lists = every list of length 0..3 over {accepting stub, rejecting stub, real handler} x real handler ok/not; run sequences of length 2 (thorough 3) over {honest, replay, other data, failure}. Oracle: independent proof-of-possession predicate; challenge = bytes drawn from the csprng seam in this run. non-trivial = run with a valid proof of possession or a handler list; distinct by case")
+	c.Rule("real gensign.Run + regular.Handler (built by NewHandler from a JSON config) over a scripted forwarded agent and a recording CA: single runs = full product login{alice,bob,ünï} x policy{NONS,NSOK} x hard-key x params{set,nil} x client claim{self,mallory} x key directory{none,.pub,bare,both,unparsable,other user,directory,another user's key} x agent{honest with key, without, signs with another key, signs other data, garbage, empty, failure, close}; handler lists = every list of length 0..3 over {accepting stub, rejecting stub, real handler} x real handler ok/not; run sequences of length 2 (thorough 3) over {honest, replay, other data, failure}, and key-rotation sequences (registered key file replaced in place between runs; old key must be refused by the long-lived and by a fresh handler, new key accepted). Oracle: independent proof-of-possession predicate; challenge = bytes drawn from the csprng seam in this run. non-trivial = run with a valid proof of possession or a handler list; distinct by case")
 	c.Assume("statistical quality of the OS CSPRNG is trusted; 'fresh' is decided as 'the 64 bytes drawn from crypto/rand during this Authenticate call'", "key files are looked up as '<name>.pub' then '<name>' (documented order)")
 	if c.ReplayCase != nil {
 		var k c01Case
@@ -315,6 +360,8 @@ func checkC01(c *ev.Ctx) {
 			c01Handlers(c, k)
 		case "sequence":
 			c01Sequence(c, k)
+		case "rotation":
+			c01Rotation(c, k)
 		default:
 			c01Single(c, k)
 		}
@@ -392,7 +439,10 @@ func checkC01(c *ev.Ctx) {
 			c01Sequence(c, c01Case{Kind: "sequence", Seq: s, RegType: rt})
 		}
 	}
-	c.Set("run_sequences", len(seqs)*len(regTypes))
+	for _, kd := range []string{"pub", "bare"} {
+		c01Rotation(c, c01Case{Kind: "rotation", KeyDir: kd, RegType: "ed25519"})
+	}
+	c.Set("run_sequences", len(seqs)*len(regTypes)+2)
 	c.Sample(c01Case{Kind: "sequence", Seq: []string{"replay", "replay"}, RegType: "ed25519"})
 	if c.Counter("runs_issuing_a_certificate") == 0 {
 		c.Violation("C01:harness:vacuous", "no run issued a certificate: the driver never reaches the interesting branch", nil)
